@@ -1757,12 +1757,30 @@ int Supervise(const Options& opt, const std::string& cell_id, std::string& js, d
     const double hard = process_deadline > 0 ? process_deadline + 60 : 0;
     int status = WaitChild(pid, hard, &s->executions, timed_out);
     if (timed_out) {
-      // a single execution did not finish: report as a hang of that schedule
+      // The execution in flight did not finish in time.  Before calling it a hang, run that one schedule alone in
+      // a fresh child with a generous limit: on a loaded machine a slow execution is not a hang.
+      const std::uint32_t keep_len = s->path_len;
+      static Dec keep_hang[kMaxDepth];
+      std::memcpy(keep_hang, s->path, keep_len * sizeof(Dec));
+      pid_t rp = fork();
+      if (rp == 0) {
+        RedirectStderr(opt.stderr_file + ".replay");
+        ChildReplayOnce(cell);
+      }
+      bool rt = false;
+      WaitChild(rp, NowS() + 600, nullptr, rt);
+      ++s->replay_checks;
+      std::memcpy(s->path, keep_hang, keep_len * sizeof(Dec));
+      s->path_len = keep_len;
       g.path = s->path;
       g.path_len = &s->path_len;
-      RecordViolation("hang", "the execution in flight did not terminate within the time limit", true);
       s->state = 2;
-      std::snprintf(s->cap_reason, sizeof(s->cap_reason), "hang");
+      if (rt) {
+        RecordViolation("hang", "the execution in flight did not terminate within the time limit, nor when run alone for 600 s", true);
+        std::snprintf(s->cap_reason, sizeof(s->cap_reason), "hang");
+      } else {
+        std::snprintf(s->cap_reason, sizeof(s->cap_reason), "stalled (schedule terminates when run alone)");
+      }
       break;
     }
     if (WIFEXITED(status) && WEXITSTATUS(status) == 0 && s->state != 0) {
